@@ -1,13 +1,14 @@
 (* C16 - client connection policy: direct first, ordered fail-over, reuse, reconnect. Proofs are short and live here's sibling Mux/Policy_proofs.v *)
-From Coq Require Import List NArith ZArith Bool Arith.
-From SA Require Import Base.Tok Mux.Policy Mux.Policy_proofs.
+From Coq Require Import String List NArith ZArith Bool Arith Lia.
+From SA Require Import Base.Tok Mux.Policy Mux.Policy_proofs Mux.Connect Mux.Connect_proofs.
+From SA Require Gen.ConnectShape Gen.SyncOps.
 Import ListNotations.
 Local Open Scope nat_scope.
 
 (* A reachable forward address is tried first: the connection is forwarded and no upstream is touched. *)
 Theorem c16_direct_first : forall must ups s evs,
   let (s', rs) := run must FOk ups s evs in
-  phys s' = phys s /\ Forall (fun r => r = RFwd \/ r = RCut) rs.
+  Policy.phys s' = Policy.phys s /\ Forall (fun r => r = RFwd \/ r = RCut) rs.
 Proof. exact direct_first. Qed.
 
 (* Otherwise a new session settles on the first upstream, in list order, that completes a handshake meeting the security requirement. *)
@@ -31,7 +32,7 @@ Proof. exact single_session. Qed.
 (* After the session is lost, the next local connection establishes a new one exactly as a first connection would. *)
 Theorem c16_reconnect : forall must f ups s,
   f <> FOk ->
-  snd (step must f ups (fst (step must f ups s ECut)) EConn) = snd (step must f ups {| session := None; alive := false; phys := phys s |} EConn).
+  snd (step must f ups (fst (step must f ups s ECut)) EConn) = snd (step must f ups {| session := None; alive := false; Policy.phys := Policy.phys s |} EConn).
 Proof. exact reconnect. Qed.
 
 (* Every attempt is bounded: in the model an upstream that never answers fails like one that refuses (the handshake deadline);
@@ -42,3 +43,244 @@ Proof. exact open_bounded. Qed.
 Example c16_nonvacuous :
   snd (run true FNone [BSilent; BOkInsecure; BRefused; BOkSecure] st0 [EConn; EConn; ECut; EConn]) = [RUp 3; RUp 3; RCut; RUp 3].
 Proof. reflexivity. Qed.
+
+(* ================================================================================================================================
+   The faithful, concurrent model of Upstreams.Connect (Mux/Connect.v): any number of goroutines, every schedule.
+   `code_shape` is what the translator reads from the source on every run; the theorems are stated over it. *)
+
+(* What the model takes from the source text: one lemma per switch (Mux/Connect_proofs.v: source_lock_first .. source_nil_check). *)
+Theorem c16_connect_code_shape : code_shape = intended.
+Proof. exact code_shape_intended. Qed.
+
+Theorem c16_connect_source_facts :
+  Gen.ConnectShape.connect_lock_sequence = "Lock;Unlock;Lock;Unlock"%string /\
+  Gen.ConnectShape.connect_returns_under_lock_1 = 0%N /\ Gen.ConnectShape.connect_returns_under_lock_2 = 0%N /\
+  Gen.ConnectShape.connect_first_cond = "ul.connection == nil || ul.connection.Closed()"%string /\
+  Gen.ConnectShape.connect_first_block_as_modelled = true /\ Gen.ConnectShape.connect_lock_around_check = true /\
+  Gen.ConnectShape.connect_replace_table = [false; false; false; false; false; false; false; true] /\
+  Gen.ConnectShape.connect_guard_compares_session = true /\ Gen.ConnectShape.connect_reads_session_under_lock = true /\
+  Gen.ConnectShape.connect_else_clears_err = true /\
+  Gen.ConnectShape.connect_replacement_closes_old = true /\ Gen.ConnectShape.connect_second_open_stream = true /\
+  Gen.ConnectShape.open_stream_lost_when_stream_fails = true /\ Gen.ConnectShape.open_stream_lost_when_refused = false /\
+  Gen.ConnectShape.open_stream_lost_on_success = false /\ Gen.ConnectShape.open_stream_failures_return_no_stream = true /\
+  Gen.ConnectShape.open_stream_refusal_closes_stream = true /\
+  Gen.ConnectShape.open_stream_checks_nil_session = true /\ Gen.ConnectShape.open_stream_lost_when_no_session = true /\
+  Gen.ConnectShape.open_stream_session_field_reads = 1%N /\
+  Gen.ConnectShape.open_ranges_over = "ul.Data"%string /\ Gen.ConnectShape.open_continues_on_error = true /\
+  Gen.ConnectShape.open_loop_as_modelled = true /\ Gen.ConnectShape.open_fails_after_loop = true /\
+  Gen.ConnectShape.shutdown_ops = "Lock;close ul.session;close ul.connection;ul.connection = nil;ul.session = nil;Unlock"%string /\
+  Gen.ConnectShape.handle_connection_direct_first = true /\ Gen.ConnectShape.connect_directly_true_only_after_dial = true /\
+  Gen.SyncOps.sync_upstreams_connect = "ul.mutex.Lock;ul.mutex.Lock;ul.mutex.Unlock;ul.mutex.Unlock"%string /\
+  Gen.SyncOps.sync_upstreams_open_stream = ""%string.
+Proof. repeat split; reflexivity. Qed.
+
+(* the states the real object can be in: whatever the goroutines and the environment did, from a fresh Upstreams value *)
+Definition reachable (s : cst) : Prop := exists m u sch, s = crun code_shape (cst0 m u) sch.
+Lemma reachable_reach s : reachable s -> reach true s.
+Proof. unfold reachable, reach. rewrite code_shape_intended, intended_core. auto. Qed.
+
+(* open() is the ordered fail-over of Policy.v (c16_first_good / c16_none_good / c16_bounded speak about the real loop) *)
+Theorem c16_open_is_policy_open : forall must ups i, open_loop (sh_continue code_shape) must ups i = open_from must ups i.
+Proof. rewrite code_shape_intended. exact open_loop_is_open_from. Qed.
+
+(* Lock discipline: mutual exclusion; the lock is held exactly inside the two locked regions; a goroutine that has returned (stream or
+   error) does not hold it; the holder never waits: it can always step, and after at most two steps of its own the lock is free - so
+   no schedule leaves the lock held for ever (each step terminates because open() does: the handshake bound, c16_bounded). *)
+Theorem c16_lock_discipline : forall s, reachable s ->
+  (forall i j gi gj, nth_error (gs s) i = Some gi -> nth_error (gs s) j = Some gj ->
+                     holds (gpc gi) = true -> holds (gpc gj) = true -> i = j) /\
+  (forall i, lock (sh s) = Some i <-> exists g, nth_error (gs s) i = Some g /\ holds (gpc g) = true) /\
+  (forall i g, nth_error (gs s) i = Some g -> gpc g = PDone -> lock (sh s) <> Some i) /\
+  (forall i, lock (sh s) = Some i ->
+     exists g, nth_error (gs s) i = Some g /\ gstep code_shape (sh s) i g <> None /\
+       (lock (sh (crun code_shape s [SGo i])) = None \/ lock (sh (crun code_shape s [SGo i; SGo i])) = None)).
+Proof. intros s R. rewrite code_shape_intended, intended_core. exact (lock_discipline true s (reachable_reach s R)). Qed.
+
+(* A single session: a session that is neither cut nor closed is the current one - there is never a second live session. *)
+Theorem c16_single_session : forall s id, reachable s -> live (sh s) id -> sess (sh s) = Some id.
+Proof. intros s id R. exact (one_live_session true s id (reachable_reach s R)). Qed.
+
+(* ... and while the current session lives and the carrier is not cut, whatever the goroutines do and however the upstreams change:
+   connection, session, the sessions closed so far, the physical connections made, the number of open() calls all stay as they are,
+   and every Connect that returns meanwhile returns a stream of THAT session (or the refusal of its channel). Refines c16_single. *)
+Theorem c16_single_session_shared : forall s sch c,
+  reachable s -> sess (sh s) = Some c -> cutmark (sh s) < c -> forallb quiet_ev sch = true ->
+  let s' := crun code_shape s sch in
+  core_of (sh s') = core_of (sh s) /\
+  forall i g', nth_error (gs s') i = Some g' -> gpc g' = PDone -> (forall g, nth_error (gs s) i = Some g -> gpc g <> PDone) ->
+    gres g' = CFwd \/ (goffered g' = true /\ gres g' = CStream c) \/ (goffered g' = false /\ gres g' = CErr ERefused).
+Proof.
+  intros s sch c R. rewrite code_shape_intended, intended_core.
+  exact (quiet_run true sch s c (reach_inv true s (reachable_reach s R))).
+Qed.
+
+(* One replacement per loss: sessions established <= 1 + carrier cuts + Shutdown calls, in every reachable state, however many
+   goroutines noticed a loss together (failed open() calls are counted apart); and between two states with no cut and no Shutdown in
+   between at most one session is established, none if the current one was alive. *)
+Theorem c16_one_replacement_per_loss : forall s, reachable s ->
+  nsess (sh s) <= 1 + ncut (sh s) + nshut (sh s) /\ nopen (sh s) = nsess (sh s) + nfail (sh s).
+Proof.
+  intros s R. destruct (reach_inv true s (reachable_reach s R)) as (I & _ & _).
+  split; [pose proof (i_count _ I); destruct (replaceable (sh s)); lia | exact (i_opens _ I)].
+Qed.
+Theorem c16_one_replacement_between : forall s sch, reachable s -> forallb no_loss_ev sch = true ->
+  let s' := crun code_shape s sch in
+  nsess (sh s) <= nsess (sh s') <= nsess (sh s) + (if replaceable (sh s) then 1 else 0).
+Proof.
+  intros s sch R Hq. rewrite code_shape_intended, intended_core. cbn zeta.
+  pose proof (reach_inv true s (reachable_reach s R)) as Hi.
+  pose proof (run_phi true sch s Hi Hq) as Hp. pose proof (nsess_mono_run true sch s Hi) as Hm.
+  unfold phi in Hp. destruct (replaceable (sh (crun (core true) s sch))); lia.
+Qed.
+
+(* A refusal is local: with a live session, a Connect whose channel the server refuses returns that error and nothing shared moves -
+   no session or connection closed, none opened - so the streams of the other logical connections keep working. *)
+Theorem c16_refusal_is_local : forall s sch c,
+  reachable s -> sess (sh s) = Some c -> cutmark (sh s) < c -> forallb quiet_ev sch = true ->
+  let s' := crun code_shape s sch in
+  sess (sh s') = Some c /\ closed (sh s') = closed (sh s) /\ phys (sh s') = phys (sh s) /\ nopen (sh s') = nopen (sh s) /\
+  stream_alive (sh s') c = true /\
+  forall i g', nth_error (gs s') i = Some g' -> gpc g' = PDone -> (forall g, nth_error (gs s) i = Some g -> gpc g <> PDone) ->
+    goffered g' = false -> gres g' = CFwd \/ gres g' = CErr ERefused.
+Proof. intros s sch c R. rewrite code_shape_intended, intended_core. exact (refusal_local true s sch c (reachable_reach s R)). Qed.
+
+(* Transparent re-establishment, concurrently: with an upstream that meets the requirement, no further cut and no Shutdown, every
+   Connect that starts from now on returns a stream of the session that is current and alive at the end (or the refusal of its
+   channel). If the session was gone or dead, that is ONE new session, on the first good upstream in list order (Policy.open_from),
+   with exactly the physical connections of one open(); if it was alive, it is that one and no physical connection is made. *)
+Theorem c16_reconnect_concurrent : forall s sch j t,
+  reachable s -> open_from (must (sh s)) (ups (sh s)) 0 = (Some j, t) -> forallb go_spawn sch = true ->
+  let s' := crun code_shape s sch in
+  forall i g', nth_error (gs s') i = Some g' -> gpc g' = PDone ->
+    (forall g, nth_error (gs s) i = Some g -> gpc g = PStart) ->
+    gres g' = CFwd \/ (goffered g' = false /\ gres g' = CErr ERefused) \/
+    (exists y, gres g' = CStream y /\ sess (sh s') = Some y /\ cutmark (sh s') < y /\
+       (replaceable (sh s) = true ->
+          y = S (nsess (sh s)) /\ nth_error (sup (sh s')) (y - 1) = Some j /\ phys (sh s') = phys (sh s) ++ t /\ sup (sh s') = sup (sh s) ++ [j]) /\
+       (replaceable (sh s) = false -> sess (sh s) = Some y /\ phys (sh s') = phys (sh s) /\ sup (sh s') = sup (sh s))).
+Proof.
+  intros s sch j t R. rewrite code_shape_intended, intended_core. exact (reconnect_concurrent true s sch j t (reachable_reach s R)).
+Qed.
+
+(* One goroutine at a time, over the events of Policy.v, the faithful model IS the policy model: same results, same physical
+   connections - so c16_direct_first .. c16_bounded above are statements about the real shape of Connect. *)
+Theorem c16_sequential_refines_policy : forall m f u evs,
+  snd (seq_run code_shape f (cst0 m u) evs) = snd (Policy.run m f u Policy.st0 evs) /\
+  phys (sh (fst (seq_run code_shape f (cst0 m u) evs))) = Policy.phys (fst (Policy.run m f u Policy.st0 evs)).
+Proof. intros m f u evs. rewrite code_shape_intended, intended_core. exact (seq_refines true m f u evs). Qed.
+
+(* No Connect dereferences a nil session. *)
+Theorem c16_no_nil_session : forall s, reachable s -> forall i g, nth_error (gs s) i = Some g -> gres g <> CPanic.
+Proof. intros s R. exact (no_panic s (reachable_reach s R)). Qed.
+
+(* The shapes that do not work, each with the schedule that shows it (flip k = the intended shape with switch k off). *)
+Theorem c16_lock_kept_on_error_return_refuted :
+  let s := crun (flip 2) (cst0 false [BOkSecure]) sch_lock_kept in
+  stuck s 1 /\ (exists g, nth_error (gs s) 1 = Some g /\ gres g = CErr EOpen) /\
+  forall sch', let s' := crun (flip 2) s sch' in
+    lock (sh s') = Some 1 /\ forall k g, nth_error (gs s') k = Some g -> gpc g = PStart -> gstep (flip 2) (sh s') k g = None.
+Proof. exact lock_kept_refuted. Qed.
+Theorem c16_lock_kept_on_first_error_return_refuted :
+  let s := crun (flip 1) (cst0 false [BRefused]) first_conn in
+  stuck s 0 /\ forall sch', lock (sh (crun (flip 1) s sch')) = Some 0.
+Proof. exact lock_kept_first_refuted. Qed.
+Theorem c16_lock_after_check_refuted :
+  let s := crun (flip 0) (cst0 false [BOkSecure]) sch_two_opens in
+  nsess (sh s) = 2 /\ ncut (sh s) = 0 /\ nshut (sh s) = 0 /\ phys (sh s) = [0; 0] /\ sess (sh s) = Some 2 /\ live (sh s) 1 /\
+  map gres (gs s) = [CStream 1; CStream 2].
+Proof. exact lock_after_check_refuted. Qed.
+Theorem c16_refusal_as_session_loss_refuted :
+  let s := crun (flip 4) (cst0 false [BOkSecure]) sch_refusal in
+  map gres (gs s) = [CStream 1; CErr ERefused] /\ closed (sh s) = [1] /\ stream_alive (sh s) 1 = false /\ ncut (sh s) = 0 /\
+  nsess (sh s) = 2 /\ phys (sh s) = [0; 0].
+Proof. exact refusal_replaces_refuted. Qed.
+Theorem c16_replace_on_any_error_refuted :
+  let s := crun (flip 5) (cst0 false [BOkSecure]) sch_refusal in
+  map gres (gs s) = [CStream 1; CErr ERefused] /\ closed (sh s) = [1] /\ stream_alive (sh s) 1 = false /\ ncut (sh s) = 0 /\ nsess (sh s) = 2.
+Proof. exact replace_on_any_error_refuted. Qed.
+Theorem c16_replacement_without_guard_refuted :
+  let s := crun (flip 7) (cst0 false [BOkSecure]) sch_two_notice in
+  ncut (sh s) = 1 /\ nshut (sh s) = 0 /\ nsess (sh s) = 3 /\ map gres (gs s) = [CStream 1; CStream 2; CStream 3] /\
+  closed (sh s) = [1; 2] /\ stream_alive (sh s) 2 = false.
+Proof. exact no_guard_refuted. Qed.
+Theorem c16_stale_error_refuted :
+  let s := crun (flip 8) (cst0 false [BOkSecure]) sch_two_notice in
+  map gres (gs s) = [CStream 1; CStream 2; CErr ELost] /\ sess (sh s) = Some 2 /\ live (sh s) 2.
+Proof. exact stale_error_refuted. Qed.
+Theorem c16_nil_session_refuted :
+  map gres (gs (crun (flip 10) (cst0 false [BOkSecure]) sch_nil)) = [CStream 1; CErr EOpen; CPanic].
+Proof. exact nil_session_refuted. Qed.
+Theorem c16_open_without_continue_refuted :
+  map gres (gs (crun (flip 9) (cst0 false [BRefused; BOkSecure]) first_conn)) = [CErr EOpen] /\
+  fst (open_from false [BRefused; BOkSecure] 0) = Some 1.
+Proof. exact no_continue_refuted. Qed.
+Theorem c16_loss_not_reported_refuted :
+  let s := crun (flip 3) (cst0 false [BOkSecure]) (first_conn ++ [SCut; SSpawn FNone true] ++ go 1 9) in
+  map gres (gs s) = [CStream 1; CErr ELost] /\ nsess (sh s) = 1.
+Proof. exact no_loss_report_refuted. Qed.
+
+(* Non-vacuity: the same schedules on the code as it is; states that meet the hypotheses above. *)
+Example c16_refusal_local_example :
+  let s := crun code_shape (cst0 false [BOkSecure]) sch_refusal in
+  map gres (gs s) = [CStream 1; CErr ERefused] /\ closed (sh s) = [] /\ stream_alive (sh s) 1 = true /\ nsess (sh s) = 1 /\ phys (sh s) = [0].
+Proof. vm_compute. repeat split; auto. Qed.
+Example c16_two_notice_example :
+  let s := crun code_shape (cst0 false [BOkSecure]) sch_two_notice in
+  map gres (gs s) = [CStream 1; CStream 2; CStream 2] /\ nsess (sh s) = 2 /\ closed (sh s) = [1] /\ phys (sh s) = [0; 0].
+Proof. vm_compute. repeat split; auto. Qed.
+Example c16_nil_session_example :
+  map gres (gs (crun code_shape (cst0 false [BOkSecure]) sch_nil)) = [CStream 1; CErr EOpen; CErr ELost].
+Proof. vm_compute. reflexivity. Qed.
+(* a reachable state with a live session and goroutines in flight (hypotheses of c16_single_session_shared / c16_refusal_is_local),
+   and one with a dead session, a good upstream and a goroutine waiting to replace it (hypotheses of c16_reconnect_concurrent) *)
+Example c16_hypotheses_example :
+  let s1 := crun code_shape (cst0 true [BOkInsecure; BOkSecure]) (first_conn ++ [SSpawn FNone false; SGo 1; SGo 1; SSpawn FNone true]) in
+  let s2 := crun code_shape s1 ([SCut; SGo 1; SSpawn FNone true] ++ go 3 4) in
+  (sess (sh s1) = Some 1 /\ cutmark (sh s1) < 1 /\ map (fun g => pc_num (gpc g)) (gs s1) = [9; 3; 0]) /\
+  (open_from (must (sh s2)) (ups (sh s2)) 0 = (Some 1, [0; 1]) /\ replaceable (sh s2) = true /\ map (fun g => pc_num (gpc g)) (gs s2) = [9; 4; 0; 5]).
+Proof. vm_compute. repeat split; auto. Qed.
+(* the enumeration of a round's schedules that the correspondence uses lets the holder of the lock run first; on these states (nothing
+   connected / session cut / session cut and server away / server away from the start; offered and refused channels mixed; three
+   goroutines) it yields exactly the outcomes of the enumeration without that reduction, for the code as it is and for the variants *)
+Example c16_enumeration_reduction_example :
+  let w0 := {| w_st := cst0 false [BOkSecure]; w_kept := [] |} in
+  let w1 := {| w_st := {| sh := sh (crun intended (cst0 false [BOkSecure]) (first_conn ++ [SCut])); gs := [] |}; w_kept := [1] |} in
+  let w2 := {| w_st := {| sh := sh (crun intended (cst0 false [BOkSecure]) (first_conn ++ [SCut; SSetUp 0 BRefused])); gs := [] |}; w_kept := [1] |} in
+  let w3 := {| w_st := cst0 true [BOkInsecure; BRefused]; w_kept := [] |} in
+  forallb (fun sp => forallb (fun w => reduction_agrees sp [BOkSecure] w [true; true; true] && reduction_agrees sp [BOkSecure] w [true; false; true])
+                             [w0; w1; w2; w3])
+          [code_shape; flip 0; flip 2; flip 4; flip 7; flip 8; flip 10] = true.
+Proof. vm_compute. reflexivity. Qed.
+
+Example c16_sequential_example :
+  snd (seq_run code_shape FNone (cst0 true [BSilent; BOkInsecure; BRefused; BOkSecure]) [EConn; EConn; ECut; EConn]) = [RUp 3; RUp 3; RCut; RUp 3].
+Proof. vm_compute. reflexivity. Qed.
+
+Print Assumptions c16_direct_first.
+Print Assumptions c16_first_good.
+Print Assumptions c16_none_good.
+Print Assumptions c16_single.
+Print Assumptions c16_reconnect.
+Print Assumptions c16_bounded.
+Print Assumptions c16_connect_code_shape.
+Print Assumptions c16_connect_source_facts.
+Print Assumptions c16_open_is_policy_open.
+Print Assumptions c16_lock_discipline.
+Print Assumptions c16_single_session.
+Print Assumptions c16_single_session_shared.
+Print Assumptions c16_one_replacement_per_loss.
+Print Assumptions c16_one_replacement_between.
+Print Assumptions c16_refusal_is_local.
+Print Assumptions c16_reconnect_concurrent.
+Print Assumptions c16_sequential_refines_policy.
+Print Assumptions c16_no_nil_session.
+Print Assumptions c16_lock_kept_on_error_return_refuted.
+Print Assumptions c16_lock_kept_on_first_error_return_refuted.
+Print Assumptions c16_lock_after_check_refuted.
+Print Assumptions c16_refusal_as_session_loss_refuted.
+Print Assumptions c16_replace_on_any_error_refuted.
+Print Assumptions c16_replacement_without_guard_refuted.
+Print Assumptions c16_stale_error_refuted.
+Print Assumptions c16_nil_session_refuted.
+Print Assumptions c16_open_without_continue_refuted.
+Print Assumptions c16_loss_not_reported_refuted.
